@@ -183,13 +183,16 @@ func checkLHS(
 	return nil
 }
 
-// fieldOwnerType returns the type of the value whose field the selector denotes.
-// For "x.f" this is the type of x, unless f is promoted through embedded fields
-// ("x.f" standing for "x.E.f"): then it is the type of the innermost embedded value.
-func fieldOwnerType(ctx *checkerContext, selector *ast.SelectorExpr) types.Type {
+// fieldOwnerTypes returns the types of the values whose field the selector denotes.
+// For "x.f" this is the type of x. If f is promoted through embedded fields ("x.f" standing
+// for "x.E.f"), f acts like a field of x's type and is a field of every embedded value on the
+// way down to the one that declares it: all of these types are returned, outermost first.
+func fieldOwnerTypes(ctx *checkerContext, selector *ast.SelectorExpr) []types.Type {
+	owners := []types.Type{ctx.pass.TypesInfo.TypeOf(selector.X)}
+
 	sel := ctx.pass.TypesInfo.Selections[selector]
 	if sel == nil || sel.Kind() != types.FieldVal || len(sel.Index()) < 2 {
-		return ctx.pass.TypesInfo.TypeOf(selector.X)
+		return owners
 	}
 
 	t := sel.Recv()
@@ -197,11 +200,52 @@ func fieldOwnerType(ctx *checkerContext, selector *ast.SelectorExpr) types.Type 
 	for _, i := range path[:len(path)-1] {
 		st, ok := util.Deref(t).Underlying().(*types.Struct)
 		if !ok || i >= st.NumFields() {
-			return ctx.pass.TypesInfo.TypeOf(selector.X)
+			break
 		}
 		t = st.Field(i).Type()
+		owners = append(owners, t)
 	}
-	return t
+	return owners
+}
+
+// immutableFieldOwner reports whether writing the selected field writes a field of an
+// @immutable type outside that type's constructors (and the field is not @mutable).
+// Returns the name of the first such type.
+func immutableFieldOwner(ctx *checkerContext, selector *ast.SelectorExpr) (string, bool) {
+	for _, owner := range fieldOwnerTypes(ctx, selector) {
+		if owner == nil {
+			continue
+		}
+
+		named, ok := util.Deref(owner).(*types.Named)
+		if !ok {
+			continue
+		}
+
+		typeName := named.Obj().Name()
+		pkg := named.Obj().Pkg()
+		if pkg == nil || !util.IsPackageLevelType(named) {
+			continue
+		}
+
+		pkgPath := pkg.Path()
+
+		if !ctx.immutableTypes.Contains(pkgPath, typeName) {
+			continue
+		}
+
+		if ctx.inConstructorOf(pkgPath, typeName) {
+			continue
+		}
+
+		// Check if the field is marked as @mutable
+		if ctx.mutableFields.Match(pkgPath, selector.Sel.Name, typeName) {
+			continue
+		}
+
+		return typeName, true
+	}
+	return "", false
 }
 
 func checkFieldAssignment(
@@ -210,36 +254,8 @@ func checkFieldAssignment(
 	selector *ast.SelectorExpr,
 ) *ImmutableViolation {
 	// Get type of the receiver (t in t.field)
-	receiverType := fieldOwnerType(ctx, selector)
-	if receiverType == nil {
-		return nil
-	}
-
-	receiverType = util.Deref(receiverType)
-
-	named, ok := receiverType.(*types.Named)
-	if !ok {
-		return nil
-	}
-
-	typeName := named.Obj().Name()
-	pkg := named.Obj().Pkg()
-	if pkg == nil || !util.IsPackageLevelType(named) {
-		return nil
-	}
-
-	pkgPath := pkg.Path()
-
-	if !ctx.immutableTypes.Contains(pkgPath, typeName) {
-		return nil
-	}
-
-	if ctx.inConstructorOf(pkgPath, typeName) {
-		return nil
-	}
-
-	// Check if the field is marked as @mutable
-	if ctx.mutableFields.Match(pkgPath, selector.Sel.Name, typeName) {
+	typeName, found := immutableFieldOwner(ctx, selector)
+	if !found {
 		return nil
 	}
 
@@ -262,36 +278,8 @@ func checkIndexAssignment(
 		return nil
 	}
 
-	receiverType := fieldOwnerType(ctx, selector)
-	if receiverType == nil {
-		return nil
-	}
-
-	receiverType = util.Deref(receiverType)
-
-	named, ok := receiverType.(*types.Named)
-	if !ok {
-		return nil
-	}
-
-	typeName := named.Obj().Name()
-	pkg := named.Obj().Pkg()
-	if pkg == nil || !util.IsPackageLevelType(named) {
-		return nil
-	}
-
-	pkgPath := pkg.Path()
-
-	if !ctx.immutableTypes.Contains(pkgPath, typeName) {
-		return nil
-	}
-
-	if ctx.inConstructorOf(pkgPath, typeName) {
-		return nil
-	}
-
-	// Check if the field is marked as @mutable
-	if ctx.mutableFields.Match(pkgPath, selector.Sel.Name, typeName) {
+	typeName, found := immutableFieldOwner(ctx, selector)
+	if !found {
 		return nil
 	}
 
@@ -336,36 +324,8 @@ func checkFieldIncDec(
 	node *ast.IncDecStmt,
 	selector *ast.SelectorExpr,
 ) *ImmutableViolation {
-	receiverType := fieldOwnerType(ctx, selector)
-	if receiverType == nil {
-		return nil
-	}
-
-	receiverType = util.Deref(receiverType)
-
-	named, ok := receiverType.(*types.Named)
-	if !ok {
-		return nil
-	}
-
-	typeName := named.Obj().Name()
-	pkg := named.Obj().Pkg()
-	if pkg == nil || !util.IsPackageLevelType(named) {
-		return nil
-	}
-
-	pkgPath := pkg.Path()
-
-	if !ctx.immutableTypes.Contains(pkgPath, typeName) {
-		return nil
-	}
-
-	if ctx.inConstructorOf(pkgPath, typeName) {
-		return nil
-	}
-
-	// Check if the field is marked as @mutable
-	if ctx.mutableFields.Match(pkgPath, selector.Sel.Name, typeName) {
+	typeName, found := immutableFieldOwner(ctx, selector)
+	if !found {
 		return nil
 	}
 
@@ -470,36 +430,8 @@ func checkCompoundLHS(
 		return nil
 	}
 
-	receiverType := fieldOwnerType(ctx, selector)
-	if receiverType == nil {
-		return nil
-	}
-
-	receiverType = util.Deref(receiverType)
-
-	named, ok := receiverType.(*types.Named)
-	if !ok {
-		return nil
-	}
-
-	typeName := named.Obj().Name()
-	pkg := named.Obj().Pkg()
-	if pkg == nil || !util.IsPackageLevelType(named) {
-		return nil
-	}
-
-	pkgPath := pkg.Path()
-
-	if !ctx.immutableTypes.Contains(pkgPath, typeName) {
-		return nil
-	}
-
-	if ctx.inConstructorOf(pkgPath, typeName) {
-		return nil
-	}
-
-	// Check if the field is marked as @mutable
-	if ctx.mutableFields.Match(pkgPath, selector.Sel.Name, typeName) {
+	typeName, found := immutableFieldOwner(ctx, selector)
+	if !found {
 		return nil
 	}
 
